@@ -25,11 +25,26 @@ try:
     else:
         rc, out = run("go build ./...", cwd=wt); res["build"] = rc == 0
         rc, out = run("go test -count=1 ./... 2>&1 | grep -E '^(--- FAIL|FAIL|ok|panic)'", cwd=wt)
-        if "FAIL" in out or "panic" in out:
-            res["suite_first_run"] = out[-600:]
-            # timing-sensitive node tests can flake under load: one retry
-            rc, out = run("go test -count=1 ./... 2>&1 | grep -E '^(--- FAIL|FAIL|ok|panic)'", cwd=wt)
-        res["suite_passes_with_change"] = ("FAIL" not in out) and ("panic" not in out) and "ok" in out; res["suite_tail"] = out[-600:]
+        res["suite_first_run"] = out[-600:]
+        ok_suite = ("FAIL" not in out) and ("panic" not in out) and "ok" in out
+        if not ok_suite:
+            # wall-clock based tests (node_test, rafttest) flake under machine load, also on the
+            # unmodified tree: rerun each failing package alone, up to 3 times
+            import re
+            pk_failed = sorted(set(re.findall(r"^FAIL\t(\S+)", out, re.M)))
+            flaky = {}
+            ok_suite = bool(pk_failed)
+            for pk in pk_failed:
+                passed = False
+                for attempt in range(3):
+                    rc2, out2 = run(f"go test -count=1 {pk} 2>&1 | grep -E '^(--- FAIL|FAIL|ok|panic)'", cwd=wt)
+                    if "FAIL" not in out2 and "panic" not in out2 and "ok" in out2:
+                        passed = True
+                        break
+                flaky[pk] = passed
+                ok_suite = ok_suite and passed
+            res["suite_rerun_of_failed_packages"] = flaky
+        res["suite_passes_with_change"] = ok_suite; res["suite_tail"] = out[-600:]
         # checks against the changed tree
         fired = {}
         claimed = [c["property_id"] for c in json.load(open(os.path.join(root, "MANIFEST.json")))["checks"]]
@@ -38,7 +53,7 @@ try:
         shutil.copy(os.path.join(root, "checker", "floors.json"), vd + "/checker/floors.json")
         if os.path.exists(os.path.join(root, "known_findings.json")): shutil.copy(os.path.join(root, "known_findings.json"), vd)
         for p in allprops:
-            r = subprocess.run([os.path.join(root, "bin", "raftlint"), "-property", p, "-repo", wt], capture_output=True, text=True, env=dict(os.environ, VERIF_DIR=vd))
+            r = subprocess.run([os.path.join(root, "bin", "raftlint"), "-property", p, "-repo", wt], capture_output=True, text=True, env=dict(os.environ, VERIF_OUT=vd))
             if r.returncode != 0:
                 fired[p] = [l.strip()[:220] for l in r.stdout.splitlines() if l.strip().startswith(("VIOLATED", "UNDECIDED", "ENGINE"))][:4]
         shutil.rmtree(vd, ignore_errors=True)
